@@ -238,6 +238,7 @@ pxgstrf_scheduler(const int_t pnum, const int_t n, const int_t *etree,
     } /* if jcol != empty */
 
     *cur_pan = jcol;
+    SLU_MT_VERIF_EVENT(jcol != EMPTY ? 1 : 2, pnum, jcol, (jcol != EMPTY ? *bcol : EMPTY), pxgstrf_shared->tasks_remain);
 
 #if ( DEBUGlevel>=1 )
     printf("(%d) Exit C.S. tasks_remain %d, cur_pan %d\n", 
